@@ -81,8 +81,8 @@ Qed.
 Example C32_nonvacuous :
   exists body, lookup N.funcs "control.Server.DropObjects" = Some body
     /\ mem "s.storage.Drop" (names body) = true
-    /\ dominated "isValidRequest" c32_crit (inline c32_fuel N.funcs body) = true
-    /\ dominated "someOtherCheck" c32_crit (inline c32_fuel N.funcs body) = false.
+    /\ dominated (String.eqb "isValidRequest") c32_crit (inline c32_fuel N.funcs body) = true
+    /\ dominated (String.eqb "someOtherCheck") c32_crit (inline c32_fuel N.funcs body) = false.
 Proof. eexists. split; [vm_compute; reflexivity|]. vm_compute. auto. Qed.
 
 Print Assumptions C32_static_node.
